@@ -49,8 +49,7 @@ META = dict(
                 "id_counter_monotone, id_counter_starts_positive)."),
     level_note=("Trusted: Lean kernel + propext/Classical.choice/Quot.sound; sync.Mutex is a correct lock; each MutexesMutex "
                 "section is one atomic, non-blocking event (supported by the facts table_uses_under_table_lock and "
-                "protocol_order_facts, which are syntactic go/ast analyses with `unknown` where aliases escape — today one "
-                "escape: the debugger's LockState, see facts_unknown); a thread IS its tid (two goroutines evaluating with one "
+                "protocol_order_facts, which are syntactic go/ast analyses with `unknown` where aliases escape — none today); a thread IS its tid (two goroutines evaluating with one "
                 "tid re-enter each other's blocks — only tested: seeded sink-closure case) and there is ONE pool per provider "
                 "(erp.Processor is an exported field; ids taken before it is replaced may collide with the new pool's — "
                 "mode I variant x observes this, it is not excluded); the trace replay expands an observed enter/exit by the "
@@ -91,12 +90,7 @@ def read_skeletons():
 
 # observations the extractor classifies as `unknown` on the tree as it is, each with the reason why this is
 # expected; any OTHER unknown observation makes the run search harder (amplified correspondence)
-EXPECTED_UNKNOWN = {
-    "interpreter/ecalDebugger.LockState:mutexeOwners used as a value":
-        "the debugger returns its alias of the live owner table (JSON-encoded by the caller without MutexesMutex): "
-        "genuine race, repaired by fixes/C16-lockstate-copies-map.patch (property C16); once that is in /repo the "
-        "observation becomes `guarded` and table_uses_under_table_lock can be tightened to `= some true`",
-}
+EXPECTED_UNKNOWN = {}
 
 
 def unknown_facts():
@@ -145,7 +139,7 @@ def correspondence(ctx, binp, tier, budget):
         _, tr = split_go(gores.get(i, "MISSING-RESULT"))
         lines[i] = cases[i] + "\t" + tr
     model = checklib.run_driver(ctx, "C12", lines, shards=SPEC["shards"])
-    bad, validated, events, nontrivial = [], 0, 0, set()
+    bad, validated, events, nontrivial, exact = [], 0, 0, set(), 0
     for i in sorted(cases):
         g, _ = split_go(gores.get(i, "MISSING-RESULT"))
         m, attrs = model.get(i, ("MISSING-MODEL-RESULT", {}))
@@ -154,9 +148,10 @@ def correspondence(ctx, binp, tier, budget):
             nontrivial.add(cases[i])
         if g == m and attrs.get("replay") == "ok":
             validated += 1
+            exact += attrs.get("exact") == "1"
         else:
             bad.append(i)
-    return dict(cases=cases, gores=gores, model=model, bad=bad, validated=validated, events=events,
+    return dict(cases=cases, gores=gores, model=model, bad=bad, validated=validated, events=events, exact=exact,
                 nontrivial=nontrivial, stats=stats, infos=infos)
 
 
@@ -213,6 +208,8 @@ def run(ctx):
     cov["distinct_nontrivial"] = len(r["nontrivial"])
     cov["traces_validated_against_impl"] = r["validated"]
     cov["model_events_replayed"] = r["events"]
+    # traces that carry the protocol events of hooks/C12.patch are replayed one recorded event = one model event
+    cov["protocol_traces_validated_one_to_one"] = r["exact"]
     cov["rule"] = RULE
     cov["input_distribution"] = r["stats"]
     cov["disagreements"] = len(r["bad"])
